@@ -7,13 +7,13 @@ package main
 // scenario runner. c19b.go: generators, judges, the driver and replay.
 
 import (
-	"encoding/hex"
 	"bytes"
 	"compress/zlib"
 	"context"
 	"crypto/md5"
 	"crypto/sha256"
 	"encoding/binary"
+	"encoding/hex"
 	"encoding/json"
 	"errors"
 	"fmt"
